@@ -614,17 +614,11 @@ def check_r11d(repo, rep, uni):
         rets = [x for s in loop.body for x in model.walk_shallow(s)
                 if isinstance(x, ast.Return)]
         guarded = False
+        derived = set(_locals_from_calls(loop, calls)) | {var}
         for r in rets:
-            i = model.enclosing(r, ast.If)
-            while i is not None and any(i is x or any(
-                    i is y for y in ast.walk(x)) for x in loop.body):
-                tnames = model.names_loaded(i.test)
-                tcalls = [c for c in ast.walk(i.test)
-                          if isinstance(c, ast.Call)]
-                if var in tnames or any(
-                        x in tnames for x in _locals_from_calls(loop, calls)):
+            for e, pol in norm.guards(r, loop):
+                if model.names_loaded(e) & derived:
                     guarded = True
-                i = model.enclosing(i, ast.If)
         if not rets or not guarded:
             ok = False
             why = 'no return inside the loop that depends on the result ' \
@@ -633,11 +627,11 @@ def check_r11d(repo, rep, uni):
             # destination() only on the true edge of source()
             dests = [c for nm, c in calls if nm.endswith('.destination')]
             for dcall in dests:
-                i = model.enclosing(dcall, ast.If)
-                if i is None or not any(
-                        isinstance(c, ast.Call) and isinstance(
-                            c.func, ast.Attribute) and
-                        c.func.attr == 'source' for c in ast.walk(i.test)):
+                pol = norm.literal_polarity(
+                    dcall, loop, lambda e: isinstance(e, ast.Call) and
+                    isinstance(e.func, ast.Attribute) and
+                    e.func.attr == 'source')
+                if pol is not True:
                     ok = False
                     why = 'destination() is not evaluated under the test ' \
                           'of its own source()'
@@ -665,20 +659,26 @@ def check_r11d(repo, rep, uni):
     recv = [p.name for p in ov.params if not p.type.hidden][0]
     dcalls = [c for c in model.calls_in(fi.node, shallow=True)
               if isinstance(c.func, ast.Name) and c.func.id == deleg]
-    tests = [nd for nd in g.nodes if nd.kind == 'test' and model.norm(
-        nd.ast) in ('%s is None' % recv, '%s == None' % recv,
-                    'not %s' % recv)]
-    ok = bool(dcalls) and bool(tests)
+    def null_test(e):
+        """atom meaning "the receiver is null" -> True, "is not null /
+        truthy" -> False, else None"""
+        if isinstance(e, ast.Compare) and len(e.ops) == 1 and isinstance(
+                e.left, ast.Name) and e.left.id == recv and isinstance(
+                e.comparators[0], ast.Constant) and \
+                e.comparators[0].value is None and isinstance(
+                e.ops[0], (ast.Is, ast.Eq)):
+            return True
+        return None
+    ok = bool(dcalls)
     for c in dcalls:
-        cn = g.node_of(c)
-        for t in tests:
-            # cn must not be reachable via the true edge
-            reach_true = set()
-            for s, lab in t.succ:
-                if lab == 'true':
-                    reach_true |= {s.id} | g.reachable_from(s)
-            if cn is None or cn.id in reach_true or not g.dominates(t, cn):
-                ok = False
+        pol = None
+        for e, p in norm.literals(c, fi.node):
+            if null_test(e) is True:
+                pol = p
+            elif isinstance(e, ast.Name) and e.id == recv:
+                pol = not p          # `if receiver:` -> not null
+        if pol is not False:
+            ok = False
     n += 1
     rep.ob('R11d', fi.key + '/null-guard', ok,
            '`?.` must apply the member expression only on the path where '
